@@ -7,14 +7,16 @@ import Knut.Proofs.GoSem
 
 `Knut/Generated/TransTable.lean` is regenerated from /repo's `table.go` and `renderer.go` on every run.  This module covers the
 functions on ONE cell: `cell.isSep` (dynamic dispatch over the closed sum of the cell types), `createSep`, `minLengthCell`,
-`writeString/writeStrings/writeSpace`, `TextRenderer.renderCell`.  The model has no percent cells; Go values are reached from model
+`padLeft`, `writeString/writeStrings/writeSpace`, `TextRenderer.renderCell`.  The model has no percent cells; Go values are reached from model
 values through `cellGo` (which never yields one), so the float formatter `ff` is arbitrary.
 
 Colour: the theorems about `renderCell` are stated for `st.NoColor = true` (what `Render` sets for `Color: false`): then
 `red.Fprintf`/`green.Fprintf` ARE `fmt.Fprintf` (`Color.Fprintf_off`).  Colour on is outside the model.
 
-`%*s`: `fmt` refuses a width beyond 10^6 and prints `%!(BADWIDTH)` instead of padding.  The model pads to every width, so the number
-cells agree for widths up to 10^6 (`renderCell_agrees`); `renderCell_num_wide` states what the code does beyond.
+Number cells: padded on the left by `table.padLeft` (by hand: `utf8.RuneCountInString`, `strings.Repeat`) since the /repo fix `pad the
+number cells of a text table without fmt's width limit`; before it they were printed with `%*s`, which `fmt` refuses beyond a width of
+10^6 (`%!(BADWIDTH)`; former known finding `text-table-badwidth-column-above-1e6-runes`).  `padLeft_agrees`: the helper is the model's
+`padLeft` for EVERY width, so `renderCell_agrees` needs no bound on the width any more.
 -/
 namespace Knut.FactsAgree.TransTableRender
 open Knut Knut.GoSem
@@ -161,18 +163,23 @@ theorem writeDashes_eq (w : String) (l : Int) :
 theorem ofList_append (a b : List Char) : String.ofList (a ++ b) = String.ofList a ++ String.ofList b := by
   apply String.ext; simp
 
-/-- `%*s` for a width `0 ≤ l ≤ 10^6` is the model's `padLeft` -/
-theorem padStar_padLeft (l : Nat) (hl : l ≤ 1000000) (s : List Char) :
-    Fmt.padStar false (l : Int) (String.ofList s) = String.ofList (Table.padLeft l s) := by
-  unfold Fmt.padStar Fmt.pad Fmt.spaces Table.padLeft
-  have h1 : ¬ ((l : Int) > 1000000 ∨ (l : Int) < -1000000) := by omega
-  have h2 : ¬ ((l : Int) < 0) := by omega
-  simp only [h1, h2, if_false, Bool.false_eq_true, String.length_ofList, ofList_append]
-  congr 3
-  omega
+/-- `table.padLeft` (blanks put in front by hand up to `l` runes — since the fix `pad the number cells of a text table without fmt's
+width limit`, which replaced `%*s`) is the model's `padLeft`, for EVERY width -/
+theorem padLeft_agrees (l : Nat) (s : List Char) :
+    table.padLeft (String.ofList s) (l : Int) = String.ofList (Table.padLeft l s) := by
+  unfold table.padLeft Table.padLeft
+  simp only [Strings.RuneCount, String.length_ofList]
+  by_cases h : (s.length : Int) < (l : Int)
+  · have e : ((l : Int) - (s.length : Int)).toNat = l - s.length := by omega
+    have hs : (" " : String) = String.singleton ' ' := rfl
+    simp only [h, decide_true, if_true, ofList_append]
+    show rep " " _ ++ _ = _
+    rw [e, hs, rep_char]
+  · have e : l - s.length = 0 := by omega
+    simp [h, e]
 
-/-- with colour off the renderer writes exactly the model's characters of the cell (widths up to 10^6) -/
-theorem renderCell_agrees (tr : table.TextRenderer) (c : Table.Cell) (l : Nat) (hl : l ≤ 1000000) (w : String)
+/-- with colour off the renderer writes exactly the model's characters of the cell, for every width -/
+theorem renderCell_agrees (tr : table.TextRenderer) (c : Table.Cell) (l : Nat) (w : String)
     (st : Color.State) (ff : Fmt.FloatFmt) (hst : st.NoColor = true) :
     table.TextRenderer.renderCell tr (cellGo c) (l : Int) w st ff
       = GoSem.Outcome.ok (w ++ String.ofList (Table.renderCell (rendOf tr) c l), none) := by
@@ -185,33 +192,17 @@ theorem renderCell_agrees (tr : table.TextRenderer) (c : Table.Cell) (l : Nat) (
     simp only [table.TextRenderer.renderCell, cellGo, TransTable.numToString_agrees, GoSem.Outcome.bind,
       Color.Fprintf_off _ _ _ _ hst, Writer.Write, Decimal.LessThan, Decimal.Equal, Decimal.GreaterThan, Decimal.Zero,
       Table.renderCell, zero_option]
-    have he : Fmt.padStar false (l : Int) "" = String.ofList (Table.padLeft l []) := padStar_padLeft l hl []
+    have he : table.padLeft "" (l : Int) = String.ofList (Table.padLeft l []) := padLeft_agrees l []
     by_cases h0 : n = 0
     · subst h0
       simp [he, rendOf]
     · by_cases hlt : n < 0
-      · simp [hlt, h0, padStar_padLeft l hl, rendOf]
+      · simp [hlt, h0, padLeft_agrees l, rendOf]
       · have hgt : n > 0 := Rat.lt_of_le_of_ne (Rat.not_lt.mp hlt) (fun e => h0 e.symm)
-        simp [hlt, h0, hgt, padStar_padLeft l hl, rendOf]
+        simp [hlt, h0, hgt, padLeft_agrees l, rendOf]
   | text s a ind =>
     cases a <;>
       simp [table.TextRenderer.renderCell, cellGo, alignGo, table.Left, table.Right, table.Center, writeSpace_eq,
         writeString_eq, GoSem.Outcome.bind, Table.renderCell, ofList_append, String.append_assoc]
-
-/-- beyond 10^6 `fmt` does not pad a number cell: `%!(BADWIDTH)` and the number (or nothing for zero) -/
-theorem renderCell_num_wide (tr : table.TextRenderer) (n : Rat) (l : Int) (hl : 1000000 < l) (w : String)
-    (st : Color.State) (ff : Fmt.FloatFmt) (hst : st.NoColor = true) :
-    table.TextRenderer.renderCell tr (cellGo (.num n)) l w st ff
-      = GoSem.Outcome.ok (w ++ "%!(BADWIDTH)" ++ (if n = 0 then "" else String.ofList (Table.numToString (rendOf tr) n)), none) := by
-  simp only [table.TextRenderer.renderCell, cellGo, TransTable.numToString_agrees, GoSem.Outcome.bind,
-    Color.Fprintf_off _ _ _ _ hst, Writer.Write, Decimal.LessThan, Decimal.Equal, Decimal.GreaterThan, Decimal.Zero, zero_option]
-  have hp : ∀ s, Fmt.padStar false l s = "%!(BADWIDTH)" ++ s := by
-    intro s; unfold Fmt.padStar; simp [hl]
-  by_cases h0 : n = 0
-  · subst h0; simp [hp]
-  · by_cases hlt : n < 0
-    · simp [hlt, h0, hp, rendOf, String.append_assoc]
-    · have hgt : n > 0 := Rat.lt_of_le_of_ne (Rat.not_lt.mp hlt) (fun e => h0 e.symm)
-      simp [hlt, h0, hgt, hp, rendOf, String.append_assoc]
 
 end Knut.FactsAgree.TransTableRender
